@@ -38,4 +38,8 @@ def instances(tier):
         i.bound = "%d leaves, copies = index mask 0x%x, all other distances symbolic" % (ns, m)
         out.append(i)
     out += dist_instances(tier)
+    # L1 also needs the kernel's value to reach the distance matrix unchanged when it is large (> 255): C11's far-apart instances
+    import dataclasses
+    from vk.props import C11
+    out += [dataclasses.replace(i, ob="L1") for i in C11.instances(tier) if i.name.startswith("far_")]
     return out
